@@ -25,7 +25,7 @@ CLAIMED["C17"] = {
     "technique": "Coq proof on a Num-generic model + bit-exact Flocq/vm_compute correspondence",
 }
 CLAIMED["C07"] = {
-    "text": "Nine Coq theorems, closed under the global context, for ALL schedules of a writer thread and an audio thread over a step-level model of triple_buffer 8.1 as kira::command uses it (two-half fills so tearing is expressible, publish swap, dirty load, swap, two-half copy): slot ownership, no torn value, returned publication numbers strictly increasing (exactly once, last write wins, nothing late), quiescent delivery, callback semantics (a command issued between callbacks j and j+1 is applied in j+1 iff it is the last of its kind, racing ones in j+1 or j+2, never twice), first-callback delivery, independence of kinds, decoder-side kinds. Correspondence: all 2^12 / 3^7 whole-call sequences and random step sequences on the real crate compared with the model; all 63 command kinds found by grepping /repo exercised through real handles (burst vs last-only twin runs, absolute probes); two-thread stress. Partial: sequential consistency assumed; interleavings inside triple_buffer on real threads only sampled.",
+    "text": "Coq theorems, closed under the global context. (1) For ALL schedules of a writer thread and an audio thread over a step-level model of triple_buffer 8.1 as kira::command uses it (two-half fills so tearing is expressible): slot ownership, no torn value, publication numbers strictly increasing (exactly once, last write wins, nothing late), quiescent delivery, callback semantics, first-callback delivery, decoder-side kinds. (2) For ALL histories of a resource with any set of command kinds whose read_commands reads every reader once in a fixed order: the state is the composition, in code order, of the per-kind effects of the last command of each interval; a command is applied in the next callback iff it is the last of its kind, never later, never twice; readers are empty after every callback; each kind behaves as if alone; the pause/resume/stop table on C03's state manager; else-if and guarded-drain readings refuted with witnesses. Correspondence: all 2^12 / 3^7 whole-call sequences on the real crate; all 63 command kinds found by grepping /repo exercised through real handles; cross-kind pairs/triples and random histories in ten contexts (paused tracks and sounds, fresh resources, static and streaming) against model, Rust mirror, split twin and absolute probes (11.9 k cases); two-thread stress. Partial: sequential consistency assumed; interleavings inside triple_buffer on real threads only sampled.",
     "design_ref": "DESIGN.md section 5 C07",
     "technique": "Coq proof (inductive invariant over all interleavings) + correspondence of the protocol model with the real crate and handles",
 }
@@ -36,7 +36,7 @@ CLAIMED["C15"] = {
 }
 
 CLAIMED["C02"] = {
-    "text": "Coq theorems over an abstract operations bundle (no algebraic law assumed about frame arithmetic, sounds, effects or track control: bit-for-bit for binary32): the buffer-level model of Mixer/Track/SendTrack::process (shared temp buffers, slices, zip-truncated +=, fill(ZERO), send inputs, arena order) REFINES the recursive signal-flow specification for every tree, every chunk list and every history of callbacks interleaved with edits, and leaves every buffer zero again (nothing carries over between tracks, chunks or callbacks; a removed/paused/unrouted branch contributes exact zeros); sends are post-fader; every sound and effect on an advancing path is asked for each frame exactly once, in order, in slices of 1..b; closed form of the documented sum over any commutative semiring and over R. Correspondence: random track trees/sends/probe sounds/probe effects/pause and removal histories rendered by a real AudioManager, device buffer and call log of every probe compared with the model (dyadic probe values, so all float operations are exact). Partial: built-in effects and real sounds enter as abstract frame transducers (their own laws are C04/C13).",
+    "text": "Coq theorems over an abstract operations bundle (no algebraic law assumed about frame arithmetic, sounds, effects or track control: bit-for-bit for binary32): the buffer-level model of Mixer/Track/SendTrack::process (shared temp buffers, slices, zip-truncated +=, fill(ZERO), send inputs, arena order) REFINES the recursive signal-flow specification for every tree, every chunk list and every history of callbacks interleaved with edits, and leaves every buffer zero again (nothing carries over between tracks, chunks or callbacks; a removed/paused/unrouted branch contributes exact zeros); sends are post-fader; every sound and effect on an advancing path is asked for each frame exactly once, in order, in slices of 1..b; closed form of the documented sum over any commutative semiring and over R. Correspondence: random track trees/sends/probe sounds/probe effects/pause and removal histories rendered by a real AudioManager, device buffer and call log of every probe compared with the model (dyadic probe values, so all float operations are exact). Partial: built-in effects and real sounds enter as abstract frame transducers (their own laws are C04/C13). Pick-up order: for every interleaving of the caller with the storage drains of on_start_processing (users drained before what they refer to) every live resource finds what it refers to when process runs (theorem over a schedule model; reversed order refuted); replayed on the real manager through hook effects that run the caller's part in the middle of on_start_processing.",
     "design_ref": "DESIGN.md section 5 C02",
     "technique": "Coq proof (refinement of a buffer-level model to a signal-flow spec, induction over trees and histories) + correspondence through a real AudioManager",
 }
